@@ -126,6 +126,10 @@ def jobs(tier):
     js.append(Job("socctrl_bus_errors", build_ctrl, {}))
     from vf.props import c11_axi
     js += c11_axi.jobs(tier)
+    # a forced (time-out) response that precedes its request (listed finding) must at least leave the outstanding-request counters of the
+    # arbiter/decoder locks sane (no wrap below zero), or the interconnect never serves anybody again: the lock-counter step lemma of C08
+    from vf.props.c08 import build_lock
+    js += [Job("lock_counter_lite", build_lock, dict(std="lite"), cost=1), Job("lock_counter_full", build_lock, dict(std="full"), cost=1)]
     return js
 
 
